@@ -1,9 +1,16 @@
 #!/bin/sh
 # Build (and cache) the harness test binaries against /repo, offline.
-set -e
-cd "$(dirname "$0")/../harness"
+# Nothing is downloaded: GOPROXY=off, all modules come from the module cache.
+cd "$(dirname "$0")/../harness" || exit 1
 export GOPROXY=off GOFLAGS=-mod=mod
 unset GOTOOLCHAIN GOSUMDB
-go test -tags verif -vet=off -count=1 -run XXX_NONE ./... >/dev/null
-go test -tags verif -vet=off -race -count=1 -run XXX_NONE ./... >/dev/null
-echo setup ok
+rc=0
+for id in $(cat ../ready.txt); do
+  pkg="./$(echo "$id" | tr 'A-Z' 'a-z')/"
+  go test -tags verif -vet=off -count=1 -run XXX_NONE "$pkg" >/dev/null 2>&1 || \
+  go test -tags verif -vet=off -count=1 -run XXX_NONE "$pkg" || rc=1
+done
+# race-instrumented std + deps (shared by every -race check)
+go test -tags verif -vet=off -race -count=1 -run XXX_NONE ./internal/ev/ >/dev/null 2>&1
+[ $rc -eq 0 ] && echo "setup ok" || echo "setup: some packages failed to build"
+exit $rc
